@@ -195,7 +195,7 @@ def _r4(ctx, m):
             l, r = tg[1]
             elt = fv[2]
             want = ("fstr", (("fmt", l, None, -1), ("const", " = "), ("fmt", r, None, -1), ("const", ";")))
-            ok = elt == want and b["b"] == ("acc", "rhs") and (b["a"] == simp(lv) or b["a"] == lv)
+            ok = elt == want and b["b"] == m.RHS and (b["a"] == simp(lv) or b["a"] == lv)
     ctx.check(ok, "R4", "fex-zip", (FILE, m.func.lineno),
               "fex = [f'{l} = {r};' for l, r in zip(lhs, rhs)] pairs row i of lhs with row i of rhs",
               found=show(fv)[:200] if fv else None)
@@ -251,7 +251,7 @@ def _r7(ctx, m, rhs_sites):
         okw = False
         try:
             holes = [h for h in lw.holes.values()]
-            slot = ("sub", ("acc", "rhs"), m.N_SPEC)
+            slot = ("sub", m.RHS, m.N_SPEC)
             if len(holes) == 1 and (holes[0] == ("fmt", slot, None, -1) or holes[0] == slot) and not lw.seqs:
                 hn = next(iter(lw.holes))
                 okw = calg.canon_str(lw.text).equiv(calg.canon_str(f"(gamma - 1.0) * ({hn}) / kerg / npar"))
@@ -431,6 +431,11 @@ MUTANTS = [
     {"name": "tgas-macro", "file": "naunet/templates/base/cpp/include/naunet_macros.h.j2", "old": "#define IDX_TGAS NSPECIES", "new": "#define IDX_TGAS NEQUATIONS", "rules": ["R4"]},
 ]
 BENIGN = [
+    {"name": "arrays-renamed", "edits": [
+        {"file": T, "old": "jacrhs", "new": "jacent", "count": 13},
+        {"file": T, "old": "rhs[", "new": "derivs[", "count": 9},
+        {"file": T, "old": "        rhs = [\"0.0\"] * n_eqns", "new": "        derivs = [\"0.0\"] * n_eqns"},
+        {"file": T, "old": "zip(lhs, rhs)", "new": "zip(lhs, derivs)"}]},
     {"name": "rename-local", "file": T, "old": "rsym_mul", "new": "monomial", "count": 7},
     {"name": "recompute-join", "file": T, "old": 'rhs[specidx] += f" + {rate_sym}[{rl}]*{rsym_mul}"', "new": 'rhs[specidx] += f" + {rate_sym}[{rl}]*{\'*\'.join(rsym)}"'},
     {"name": "concat-instead-of-fstring", "file": T, "old": 'rhs[specidx] += f" - {rate_sym}[{rl}]*{rsym_mul}"', "new": 'rhs[specidx] += " - " + f"{rate_sym}[{rl}]" + "*" + rsym_mul'},
